@@ -210,6 +210,10 @@ def run_plan(plan: dict) -> dict:
                     if op["interleave"]:
                         tuples = Stream(plan["seed"], "interleave", oi).shuffle(tuples)
                     ix = pd.MultiIndex.from_tuples(tuples, names=["ID", "TIME"])
+                    if Stream(plan["seed"], "levels", oi).bernoulli(0.3):
+                        # the index levels are named: (TIME, ID) is the same request as (ID, TIME)
+                        ix = pd.MultiIndex.from_tuples([(a, pid_) for pid_, a in tuples], names=["TIME", "ID"])
+                        C["probe.multiindex_levels_time_first"] += 1
                     res = model.estimate(ix, ip, to_dataframe=op["to_dataframe"])
         except Exception as e:
             wants_df = op["to_dataframe"] if op["to_dataframe"] is not None else (form == "multiindex")
